@@ -270,7 +270,7 @@ func runC12(p *core.Prog, r *core.Result) {
 						dn := paramDepsNames(tip, lastCall.Call.Args[0])
 						covers = dn["Package"] && dn["Name"]
 					}
-					mid := core.DependsOn(elems[1], core.SliceOpts{}, func(v ssa.Value) bool { return core.IsField(v, pkgLabel, "Label", "Kind") })
+					mid := core.DependsOn(elems[1], core.SliceOpts{Helpers: true}, func(v ssa.Value) bool { return core.IsField(v, pkgLabel, "Label", "Kind") })
 					okShape = first && last && covers && mid
 				}
 			}
@@ -395,28 +395,86 @@ func runC14(p *core.Prog, r *core.Result) {
 	}
 	// the marking closure: an anonymous function of GC that updates a map captured from GC
 	var mark, sweep *ssa.Function
-	for _, a := range gc.AnonFuncs {
-		hasUpdate, hasRemove := false, false
-		core.Instrs(a, func(in ssa.Instruction) {
-			if _, ok := in.(*ssa.MapUpdate); ok {
-				hasUpdate = true
-			}
-			if c, ok := in.(ssa.CallInstruction); ok && (core.IsCallTo(c, "os", "RemoveAll") || core.IsCallTo(c, "os", "Remove")) {
-				hasRemove = true
-			}
-		})
-		if hasUpdate && !hasRemove {
-			mark = a
+	// the closures live in GC or in a helper of the package that GC calls (e.g. one that computes the live set)
+	hosts := []*ssa.Function{gc}
+	for _, c := range core.Calls(gc) {
+		if h := core.Callee(c); h != nil && h.Pkg == gc.Pkg && h.Blocks != nil && h != tip {
+			hosts = append(hosts, h)
 		}
-		if hasRemove {
-			sweep = a
+	}
+	markHost := gc
+	for _, host := range hosts {
+		for _, a := range host.AnonFuncs {
+			hasUpdate, hasRemove := false, false
+			core.Instrs(a, func(in ssa.Instruction) {
+				if _, ok := in.(*ssa.MapUpdate); ok {
+					hasUpdate = true
+				}
+				if c, ok := in.(ssa.CallInstruction); ok && (core.IsCallTo(c, "os", "RemoveAll") || core.IsCallTo(c, "os", "Remove")) {
+					hasRemove = true
+				}
+			})
+			if hasUpdate && !hasRemove && mark == nil {
+				mark, markHost = a, host
+			}
+			if hasRemove && sweep == nil {
+				sweep = a
+			}
 		}
 	}
 	if mark == nil || sweep == nil {
 		r.Unk("R14.0", "dawn.(*Project).GC#closures", p.Pos(gc.Pos()), "mark and sweep closures of GC not recognised")
 		return
 	}
-	markCalls := core.CallsTo(gc, mark)
+	sweepHost := sweep.Parent()
+	// the set the sweep consults is the set the marker fills
+	mapRoot := func(v ssa.Value) ssa.Value {
+		for i := 0; i < 10 && v != nil; i++ {
+			switch x := v.(type) {
+			case *ssa.UnOp:
+				if x.Op != token.MUL {
+					return v
+				}
+				if s := core.SingleStore(x.X); s != nil {
+					v = s
+				} else {
+					v = x.X
+				}
+			case *ssa.FreeVar:
+				b := core.Binding(x)
+				if b == nil {
+					return v
+				}
+				v = b
+			case *ssa.Alloc:
+				s := core.SingleStore(x)
+				if s == nil {
+					return v
+				}
+				v = s
+			case *ssa.Call:
+				h := core.Callee(x)
+				if h == nil || h != markHost {
+					return v
+				}
+				rets := core.ReturnsOf(h)
+				if len(rets) != 1 || len(rets[0].Results) != 1 {
+					return v
+				}
+				v = rets[0].Results[0]
+			default:
+				return v
+			}
+		}
+		return v
+	}
+	var markedSet ssa.Value
+	core.Instrs(mark, func(in ssa.Instruction) {
+		if mu, ok := in.(*ssa.MapUpdate); ok {
+			markedSet = mapRoot(mu.Map)
+		}
+	})
+	markCalls := core.CallsTo(markHost, mark)
 	// ---- R14.1
 	okMarkTip := false
 	var targetMark ssa.CallInstruction
@@ -452,7 +510,7 @@ func runC14(p *core.Prog, r *core.Result) {
 		in := targetMark.(ssa.Instruction)
 		// inside a range over Project.targets, in the loop body entry block (no filter)
 		var rg *ssa.Range
-		core.Instrs(gc, func(x ssa.Instruction) {
+		core.Instrs(markHost, func(x ssa.Instruction) {
 			if y, ok := x.(*ssa.Range); ok && core.LoadOfField(y.X, pkgRoot, "Project", "targets") {
 				rg = y
 			}
@@ -470,7 +528,7 @@ func runC14(p *core.Prog, r *core.Result) {
 					}
 					// the mark call must hold only the loop-continuation fact beyond the facts of the loop header
 					extra := false
-					base := p.Facts(gc)[nx.Block()]
+					base := p.Facts(markHost)[nx.Block()]
 					for f := range p.FactsAt(in) {
 						if base[f] || f.Cond == okV {
 							continue
@@ -590,22 +648,31 @@ func runC14(p *core.Prog, r *core.Result) {
 	tempRel := ""
 	if ld := p.Func("", "", "Load"); ld != nil {
 		var work, temp []string
-		core.Instrs(ld, func(in ssa.Instruction) {
-			st, ok := in.(*ssa.Store)
-			if !ok {
-				return
+		// Load, or the constructor helper of the package that sets the two directories
+		for _, f := range p.ModuleFuncs() {
+			if f.Pkg != ld.Pkg {
+				continue
 			}
-			if c, ok := st.Val.(*ssa.Call); ok {
-				if _, parts := joinConsts(c); parts != nil {
-					if core.IsField(st.Addr, pkgRoot, "Project", "work") {
-						work = parts
-					}
-					if core.IsField(st.Addr, pkgRoot, "Project", "temp") {
-						temp = parts
+			core.Instrs(f, func(in ssa.Instruction) {
+				st, ok := in.(*ssa.Store)
+				if !ok {
+					return
+				}
+				if c, ok := st.Val.(*ssa.Call); ok {
+					if b, parts := joinConsts(c); parts != nil {
+						if core.IsField(st.Addr, pkgRoot, "Project", "work") {
+							work = parts
+						}
+						if core.IsField(st.Addr, pkgRoot, "Project", "temp") {
+							temp = parts
+							if b == "work" {
+								temp = append(append([]string{}, work...), parts...)
+							}
+						}
 					}
 				}
-			}
-		})
+			})
+		}
 		if len(work) > 0 && len(temp) > len(work) && strings.Join(temp[:len(work)], "/") == strings.Join(work, "/") {
 			tempRel = strings.Join(temp[len(work):], "/")
 		}
@@ -745,12 +812,12 @@ func runC14(p *core.Prog, r *core.Result) {
 				return false
 			}
 			lk, ok := e.Tuple.(*ssa.Lookup)
-			return ok && lk.Index == ssa.Value(sweep.Params[0])
+			return ok && lk.Index == ssa.Value(sweep.Params[0]) && markedSet != nil && mapRoot(lk.X) == markedSet
 		})
 		r.Check(argOK && miss, "R14.4", "dawn.(*Project).GC$sweep#removes-unmarked-walk-entry", p.InstrPos(c.(ssa.Instruction)), "removes exactly the walked path, and only when it is not in the marked set", "the sweep removes something other than an unmarked walked path")
 	}
 	okWalk := false
-	for _, c := range core.Calls(gc) {
+	for _, c := range core.Calls(sweepHost) {
 		if core.IsCallTo(c, "path/filepath", "WalkDir") || core.IsCallTo(c, "path/filepath", "Walk") {
 			if core.LoadOfField(c.Common().Args[0], pkgRoot, "Project", "work") {
 				if mc, ok := core.Unwrap(c.Common().Args[1]).(*ssa.MakeClosure); ok && mc.Fn == sweep {
